@@ -110,6 +110,7 @@ def run(R, tier, seed, driver_ok):
     R.assumptions = ['roc_curve / precision_recall_curve are external; only the criterion value attained by threshold_ is compared (never the threshold itself)']
     lines, meta = [], []
     clines, cmeta = [], []
+    rlines, rmeta = [], []
     ests = []
     for name in zoo.PAIRS:
         for _ in range(1 if tier == 'quick' else 3):
@@ -177,6 +178,11 @@ def run(R, tier, seed, driver_ok):
                 p = 0.0 if param is None else param
                 lines.append(f"calib {strategy} {n} {bits(d)} {' '.join(map(str, yv))} {f2b(p)} {f2b(thr_eff)}")
                 meta.append((best, got, ok, case))
+                if strategy in ('max_tpr', 'max_tnr'):
+                    # implementation-layer model of the roc_curve route (C16_code_max_tpr_optimal / C16_code_max_tnr_optimal):
+                    # the stored threshold must be the model's (−inf when the model stores the reject-all position)
+                    rlines.append(f"calib_rate_code {strategy} {n} {bits(d)} {' '.join(map(str, yv))} {f2b(param)}")
+                    rmeta.append((thr, case))
                 if strategy == 'accuracy':
                     # implementation-layer model (sort / cumulative counts / realisable mask / first arg-max):
                     # the stored threshold must be bit-identical to the model's
@@ -267,11 +273,26 @@ def run(R, tier, seed, driver_ok):
                 R.broken('correspondence:C16:calib_code',
                          f"code-level model stores threshold {m_thr!r} ({tk[3]} correct, position {tk[1]}) vs implementation {thr!r} ({ncorrect} correct)", case)
         R.count('calib_code_traces', len(clines))
+        outs = lean_run(rlines)
+        for o, (thr, case) in zip(outs, rmeta):
+            tk = o.split()
+            if tk[:1] != ['ok'] or len(tk) not in (2, 3):
+                R.broken('driver:calib_rate_code', f'model driver answered {o[:80]}', case)
+                continue
+            if tk[1] == 'none':
+                R.broken('correspondence:C16:calib_rate_code', f'code-level model stores nothing (no qualifying cut-off), the implementation stored {thr!r}', case)
+                continue
+            pos, m_thr = int(tk[1]), float(parse_ok_floats('ok ' + tk[2])[0])
+            same = (thr == -np.inf) if pos == 0 else (m_thr == float(thr))
+            if not same:
+                R.broken('correspondence:C16:calib_rate_code',
+                         f"code-level model of the {case['strategy']} route stores position {pos} (threshold {m_thr!r}) vs implementation threshold_ {thr!r}", case)
+        R.count('calib_rate_code_traces', len(rlines))
         outs = lean_run(vl)
         for o, (valid, case) in zip(outs, vm):
             if (o.strip() == 'ok accepted') != valid:
                 R.broken('correspondence:C16:validate_calib', f'model says {o!r} for {case}', case)
-        R.extra['traces_validated_against_impl'] = len(lines) + len(clines) + len(vl)
+        R.extra['traces_validated_against_impl'] = len(lines) + len(clines) + len(rlines) + len(vl)
 
 
 def replay(R, obj):
